@@ -223,7 +223,7 @@ impl<T> Array<T> {
         self.shape.iter().skip(1).product()
     }
 }
-pub trait ArrayValue: ArrayCmp + Clone + std::fmt::Debug + Sized {
+pub trait ArrayValue: ArrayCmp + Clone + std::fmt::Debug + Sized + ScalarFill {
     const NAME: &'static str;
     fn dbg_validate(_arr: &Array<Self>) {}
 }
@@ -365,5 +365,53 @@ impl From<u8> for Array<u8> {
 impl FromIterator<usize> for Shape {
     fn from_iter<I: IntoIterator<Item = usize>>(it: I) -> Self {
         Shape(it.into_iter().collect())
+    }
+}
+
+// ---- what Array::first / Array::last need ----
+impl Shape {
+    /// src/shape.rs:62
+    pub fn remove(&mut self, index: usize) -> usize {
+        self.0.remove(index)
+    }
+}
+impl From<&[usize]> for Shape {
+    fn from(s: &[usize]) -> Shape {
+        Shape(s.to_vec())
+    }
+}
+impl<T: Clone> Data<T> {
+    /// src/cowslice.rs:237
+    pub fn extend_repeat(&mut self, elem: &T, count: usize) {
+        let mut i = 0;
+        while i < count {
+            self.0.push(elem.clone());
+            i += 1;
+        }
+    }
+}
+impl<T: Clone> From<&[T]> for Data<T> {
+    fn from(s: &[T]) -> Data<T> {
+        Data(s.to_vec())
+    }
+}
+impl UiuaError {
+    /// src/error.rs:152 (marks the error as fill-related: not under contract)
+    pub fn fill(self) -> Self {
+        self
+    }
+}
+pub enum Primitive {
+    First,
+    Last,
+}
+impl Primitive {
+    pub fn format(&self) -> &'static str {
+        ""
+    }
+}
+impl ScalarFill for u8 {
+    fn from_f64(x: f64) -> u8 {
+        x as u8
     }
 }
